@@ -510,9 +510,11 @@ func runNocopyRaw(c *StructCase, w *TraceWriter, seeds []int) {
 	if len(val) >= 4096 {
 		nlarge = 1
 	}
-	for _, has := range []bool{true, false} {
+	for _, hs := range [][2]int{{1, 0}, {0, 0}, {1, 1 + int(uint32(c.I)%97)}, {1, 4096}} {
+		has := hs[0] == 1
 		slack := int(c.I % 7)
-		buf := make([]byte, 4+len(val)+slack)
+		// spare capacity behind the destination's length (a pooled buffer cut to size): positions count from len, never from cap
+		buf := make([]byte, 4+len(val)+slack, 4+len(val)+slack+hs[1])
 		for i := range buf {
 			buf[i] = 0xA5
 		}
@@ -575,7 +577,8 @@ func runNocopy(c *StructCase, w *TraceWriter, seeds []int) {
 	blen := v.BLength()
 	copybuf := make([]byte, blen+4)
 	copyret := v.FastWriteNocopy(copybuf, nil)
-	for _, has := range []bool{true, false} {
+	for _, hs := range [][2]int{{1, 0}, {0, 0}, {1, 1 + int(uint32(c.I)%97)}} {
+		has, spare := hs[0] == 1, hs[1]
 		func() {
 			defer func() {
 				if p := recover(); p != nil {
@@ -583,7 +586,7 @@ func runNocopy(c *StructCase, w *TraceWriter, seeds []int) {
 						"haswriter", has, "ndirect", -1, "nlarge", nlarge, "panic", fmt.Sprint(p))
 				}
 			}()
-			buf := make([]byte, blen)
+			buf := make([]byte, blen, blen+spare)
 			for i := range buf {
 				buf[i] = 0xA5
 			}
@@ -704,6 +707,62 @@ func runMsg(c *StructCase, w *TraceWriter, seeds []int) {
 	w.Ev("msg_u", "schema", target, "in", projectBytes(in, seeds), "ok", uerr == nil && !panicked, "panic", panicked, "isexc", isexc,
 		"exctid", exctid, "excmsg", projectBytes([]byte(excmsg), seeds), "untouched", untouched,
 		"method", projectBytes([]byte(um), seeds), "seq", int(useq), "val", uval)
+	// an EXCEPTION message handed to every other kind of caller struct (incl. an ApplicationException of the
+	// caller's own, and nil): always a separate error value, the caller's struct keeps its contents
+	if _, mt, _, _, herr := thrift.Binary.ReadMessageBegin(in); c.Mode == "msgexc" && herr == nil && mt == thrift.EXCEPTION {
+		for _, tgt := range []string{"BaseResp", "AppEx", "nil"} {
+			var d2 fastStruct
+			var own *thrift.ApplicationException
+			var resp *base.BaseResp
+			switch tgt {
+			case "BaseResp":
+				resp = base.NewBaseResp()
+				resp.StatusMessage, resp.StatusCode = sentinel, 12345
+				d2 = resp
+			case "AppEx":
+				own = thrift.NewApplicationException(12345, sentinel)
+				d2 = own
+			}
+			var m2 string
+			var s2 int32
+			var e2 error
+			p2 := false
+			func() {
+				defer func() {
+					if p := recover(); p != nil {
+						p2 = true
+					}
+				}()
+				if d2 == nil {
+					m2, s2, e2 = thrift.UnmarshalFastMsg(in, nil)
+				} else {
+					m2, s2, e2 = thrift.UnmarshalFastMsg(in, d2)
+				}
+			}()
+			var a2 *thrift.ApplicationException
+			isexc2 := e2 != nil && errors.As(e2, &a2) && a2 != nil
+			if _, isProto := e2.(*thrift.ProtocolException); isProto {
+				isexc2 = false
+			}
+			t2, msg2 := 0, ""
+			if isexc2 {
+				t2, msg2 = int(a2.TypeID()), a2.Msg()
+			}
+			unt := true
+			switch tgt {
+			case "BaseResp":
+				unt = resp.StatusMessage == sentinel && resp.StatusCode == 12345 && resp.Extra == nil
+			case "AppEx":
+				unt = a2 != own
+				if isexc2 && a2 != own {
+					unt = own.TypeID() == 12345 && own.Msg() == sentinel
+				}
+			}
+			w.Ev("msg_u", "schema", tgt, "in", projectBytes(in, seeds), "ok", e2 == nil && !p2, "panic", p2, "isexc", isexc2,
+				"exctid", t2, "excmsg", projectBytes([]byte(msg2), seeds), "untouched", unt,
+				"method", projectBytes([]byte(m2), seeds), "seq", int(s2), "val", Raw("{}"))
+		}
+	}
 }
 
 func bodyMapTooBig(schema string, in []byte) bool {
